@@ -1207,6 +1207,87 @@ func ruleStoredSliceReuse(r *Run) {
 			}
 		}
 	}
+	// the same when the slice is handed to a function that keeps it (cursor.addVariable(vars) stores its argument in
+	// the new trie node): the call is the store
+	retains := func(callee *ssa.Function, i int) string {
+		if callee == nil || !p.InModule(callee) || i >= len(callee.Params) {
+			return ""
+		}
+		for _, w := range e.AllWrites(callee) { // also into an object the callee has just made (a new trie node)
+			var val ssa.Value
+			switch x := w.Instr.(type) {
+			case *ssa.MapUpdate:
+				val = x.Value
+			case *ssa.Store:
+				val = x.Val
+			default:
+				continue
+			}
+			if _, ok := val.Type().Underlying().(*types.Slice); !ok {
+				continue
+			}
+			for _, o := range p.origins(val, originOpts{local: true, throughSlice: true, throughConvert: true}) {
+				if o == ssa.Value(callee.Params[i]) {
+					return w.Target()
+				}
+			}
+		}
+		return ""
+	}
+	for _, fn := range p.ModuleFuncs() {
+		site := 0
+		eachInstr(fn, func(in ssa.Instruction) {
+			c, ok := in.(*ssa.Call)
+			if !ok || c.Call.IsInvoke() {
+				return
+			}
+			callee := c.Call.StaticCallee()
+			for i, a := range c.Call.Args {
+				if _, ok := a.Type().Underlying().(*types.Slice); !ok {
+					continue
+				}
+				target := retains(callee, i)
+				if target == "" {
+					continue
+				}
+				n++
+				site++
+				key := fmt.Sprintf("%s/kept-by:%s#%d", shortFunc(fn), shortFunc(callee), site)
+				web := sliceAliasWeb(fn, a)
+				var hit ssa.Instruction
+				q := pathQuery{fn: fn, start: in, target: func(x ssa.Instruction) bool {
+					sl, ok := x.(*ssa.Slice)
+					if !ok || !web[sl.X] {
+						return false
+					}
+					for _, ref := range *sl.Referrers() {
+						switch y := ref.(type) {
+						case *ssa.Call:
+							if b, ok := y.Call.Value.(*ssa.Builtin); ok && b.Name() == "append" && y.Call.Args[0] == ssa.Value(sl) {
+								hit = x
+								return true
+							}
+						case *ssa.Phi:
+							for _, r2 := range *y.Referrers() {
+								if c2, ok := r2.(*ssa.Call); ok {
+									if b, ok := c2.Call.Value.(*ssa.Builtin); ok && b.Name() == "append" && c2.Call.Args[0] == ssa.Value(y) {
+										hit = x
+										return true
+									}
+								}
+							}
+						}
+					}
+					return false
+				}}
+				if pth, _ := q.find(); pth != nil {
+					r.bad(key, hit.Pos(), "the slice handed to %s is kept there (%s) and is re-sliced and appended to later in this function (%s): the kept entry and the later ones share one backing array, so a later iteration overwrites what an earlier one registered", shortFunc(callee), target, p.describePath(pth))
+				} else {
+					r.ok(key, in.Pos(), "the slice kept by %s (%s) is not re-used as an append buffer afterwards", shortFunc(callee), target)
+				}
+			}
+		})
+	}
 	if n == 0 {
 		r.undecided("slices stored into routing state", token.NoPos, "no slice-typed write to routing state found")
 	}
